@@ -482,8 +482,36 @@ mod boxed {
   // 0111 1111 1111 1100 0000 0000 0000 0000 0000 0000 0000 0000 0000 0000 0000 0100
   pub const VALUE_UNDEFINED: Value = Value(TAG_UNDEFINED);
 
-  #[derive(PartialEq, Eq, Hash, Copy, Clone, Debug)]
+  #[derive(Copy, Clone, Debug)]
   pub struct Value(u64);
+
+  /// Numbers compare by IEEE rules as in the tagged enum representation
+  /// (0 equals -0, NaN differs from itself), everything else by bit pattern
+  impl PartialEq for Value {
+    #[inline]
+    fn eq(&self, other: &Value) -> bool {
+      if self.is_num() && other.is_num() {
+        self.to_num() == other.to_num()
+      } else {
+        self.0 == other.0
+      }
+    }
+  }
+
+  impl Eq for Value {}
+
+  impl std::hash::Hash for Value {
+    #[inline]
+    fn hash<H: std::hash::Hasher>(&self, state: &mut H) {
+      if self.is_num() {
+        // equal numbers have to hash equally (0 and -0)
+        ValueKind::Number.hash(state);
+        (self.to_num() as u64).hash(state);
+      } else {
+        self.0.hash(state);
+      }
+    }
+  }
 
   impl Value {
     #[inline]
